@@ -11,7 +11,7 @@ namespace ArrowModel.C13
 
 /-- a float: NaN, ±∞ or the finite value `(-1)^neg · m · 2^e` (zero is `m = 0`) -/
 inductive F where
-  | nan
+  | nan (neg : Bool)
   | inf (neg : Bool)
   | fin (neg : Bool) (m : Nat) (e : Int)
 deriving Repr, DecidableEq, Inhabited
@@ -23,7 +23,7 @@ def decodeF (eb fb : Nat) (bits : Nat) : F :=
   let frac := bits % 2 ^ fb
   let ex := (bits / 2 ^ fb) % 2 ^ eb
   let neg := decide ((bits / 2 ^ (fb + eb)) % 2 = 1)
-  if ex = 2 ^ eb - 1 then (if frac = 0 then .inf neg else .nan)
+  if ex = 2 ^ eb - 1 then (if frac = 0 then .inf neg else .nan neg)
   else if ex = 0 then .fin neg frac (1 - fbias eb - fb)
   else .fin neg (2 ^ fb + frac) ((ex : Int) - fbias eb - fb)
 
@@ -46,7 +46,7 @@ def rneRat (eb fb : Nat) (neg : Bool) (p q : Nat) : F :=
 
 /-- IEEE-754 encoding of a value produced by `rneRat` -/
 def encodeF (eb fb : Nat) : F → Nat
-  | .nan => (2 ^ eb - 1) * 2 ^ fb + 2 ^ (fb - 1)
+  | .nan neg => (if neg then 2 ^ (fb + eb) else 0) + (2 ^ eb - 1) * 2 ^ fb + 2 ^ (fb - 1)
   | .inf neg => (if neg then 2 ^ (fb + eb) else 0) + (2 ^ eb - 1) * 2 ^ fb
   | .fin neg m e =>
     (if neg then 2 ^ (fb + eb) else 0) +
@@ -57,20 +57,20 @@ def fmul64 (a b : F) : F :=
   match a, b with
   | .fin n1 m1 e1, .fin n2 m2 e2 =>
     rneRat 11 52 (n1 != n2) (m1 * m2 * 2 ^ (e1 + e2).toNat) (2 ^ (-(e1 + e2)).toNat)
-  | .fin n1 m1 _, .inf n2 => if m1 = 0 then .nan else .inf (n1 != n2)
-  | .inf n1, .fin n2 m2 _ => if m2 = 0 then .nan else .inf (n1 != n2)
+  | .fin n1 m1 _, .inf n2 => if m1 = 0 then .nan false else .inf (n1 != n2)
+  | .inf n1, .fin n2 m2 _ => if m2 = 0 then .nan false else .inf (n1 != n2)
   | .inf n1, .inf n2 => .inf (n1 != n2)
-  | _, _ => .nan
+  | _, _ => .nan false
 
 /-- exactly rounded quotient in binary64 for finite operands, `b ≠ 0` -/
 def fdiv64 (a b : F) : F :=
   match a, b with
   | .fin n1 m1 e1, .fin n2 m2 e2 =>
-    if m2 = 0 then (if m1 = 0 then .nan else .inf (n1 != n2)) else
+    if m2 = 0 then (if m1 = 0 then .nan false else .inf (n1 != n2)) else
     rneRat 11 52 (n1 != n2) (m1 * 2 ^ (e1 - e2).toNat) (m2 * 2 ^ (e2 - e1).toNat)
   | .fin n1 _ _, .inf n2 => .fin (n1 != n2) 0 (-1074)
   | .inf n1, .fin n2 _ _ => .inf (n1 != n2)
-  | _, _ => .nan
+  | _, _ => .nan false
 
 /-- `f64::powi` as compiled (compiler-builtins `__powidf2`): square-and-multiply with a
 rounding after every product, reciprocal at the end for a negative exponent -/
@@ -129,5 +129,40 @@ def floatToInt (lo hi : Int) : F → Option Int
 /-- `x as f64` / `x as f32` for an integer `x` (round to nearest even) -/
 def intToFloat (eb fb : Nat) (x : Int) : F :=
   rneRat eb fb (decide (x < 0)) x.natAbs 1
+
+/-- re-round a value into another format (`as f32`, `f16::from_f32`, `f16::from_f64`) -/
+def fconv (eb fb : Nat) : F → F
+  | .fin neg m e => rneRat eb fb neg (m * 2 ^ e.toNat) (2 ^ (-e).toNat)
+  | v => v
+
+/-- `NumCast` into a float format: `f16` goes through `f32` (`n.to_f32().map(f16::from_f32)`) -/
+def toFormat (eb fb : Nat) (v : F) : F :=
+  if eb = 5 then fconv 5 10 (fconv 8 23 v) else fconv eb fb v
+
+/-- `i256::to_f64`: special cases, otherwise keep the top 64 bits (truncating), convert, scale -/
+def i256ToF64 (x : Int) : F :=
+  if x = 0 then .fin false 0 (-1074)
+  else if x = -(2 ^ 255) then .fin true (2 ^ 52) 203
+  else
+    let y : Nat := if x < 0 then (-x - 1).toNat else x.toNat
+    let k : Nat := 255 - (if y = 0 then 0 else Nat.log2 y + 1)   -- redundant sign bits
+    -- n = (x << k) >> 192 (arithmetic), as i64
+    let n : Int := (x * 2 ^ k) / 2 ^ 192
+    match rneRat 11 52 (decide (n < 0)) n.natAbs 1 with
+    | .fin neg m e => fconv 11 52 (.fin neg m (e + 192 - (k : Int)))
+    | v => v
+
+/-- `as_float(x) / 10_f64.powi(scale)` (`single_decimal_to_float_lossy`) then the narrowing of
+`cast_from_decimal` (`as f32`, `f16::from_f64`) -/
+def decToFloat (w : Nat) (s : Int) (eb fb : Nat) (x : Int) : F :=
+  let xf : F := if w = 256 then i256ToF64 x else rneRat 11 52 (decide (x < 0)) x.natAbs 1
+  let q := fdiv64 xf (powi10 s)
+  -- `f16::from_f64` converts through `f32` on x86 with F16C (half 2.x `f64_to_f16_x86_f16c`): double rounding
+  if eb = 11 then q else if eb = 5 then fconv 5 10 (fconv 8 23 q) else fconv eb fb q
+
+/-- `value != 0.0` -/
+def floatNonZero : F → Bool
+  | .fin _ m _ => m != 0
+  | _ => true
 
 end ArrowModel.C13
